@@ -784,13 +784,13 @@ func (c *ledgerCase) execSnap(f []string, prop string, res *Result) {
 	// premise of C16, evaluated on the state before the write
 	premise := true
 	for _, id := range txs {
+		if _, ok := before.get(append(append([]byte("UNIQUE"), c.hashOf(id)...), nodeID[:]...)); ok {
+			premise = false // batch rule: a node includes a transaction once
+		}
 		if _, fin := before.get(append([]byte("FINALIZATION"), c.hashOf(id)...)); fin {
 			continue
 		}
 		premise = premise && c.pending[id]
-		if _, ok := before.get(append(append([]byte("UNIQUE"), c.hashOf(id)...), nodeID[:]...)); ok {
-			premise = false // batch rule: a node includes a transaction once
-		}
 	}
 	if _, ok := before.get(binary.BigEndian.AppendUint64([]byte("TOPOLOGY"), uint64(topo))); ok {
 		premise = false
